@@ -21,6 +21,11 @@ def scenarios(tier, rng):
         "split": [{"rec": [["part1", 1]], "nowait": True}, {"pause": 30}, {"rec": [["part2", 1], ["bmp", 2]]}],
         "mixed": [{"rec": [["bmp", 1]]}, {"rec": [["bmp", 2], ["bmp", 3]]}, {"rec": [["bmp", 4]]}],
         "none": [],
+        # one PDU carrying three rectangles: all three are forwarded, in wire order
+        "multi_rect": [{"rec": [["bmp3", 1]]}, {"rec": [["bmp", 4]]}, {"rec": [["bmp3", 5]]}],
+        # a burst the server does not wait on, the end of the session right behind it: everything sent before the end
+        # is still forwarded, then the thread stops
+        "burst": [{"rec": [["bmp", 1]], "nowait": True}, {"rec": [["bmp", 2]], "nowait": True}, {"rec": [["bmp3", 3]], "nowait": True}, {"rec": [["bmp", 6]], "nowait": True}],
         # silence between records: the thread has to stay blocked in its wait, however long, and pick up what comes next
         "paused": [{"rec": [["bmp", 1]]}, {"pause": 700}, {"rec": [["bmp", 2]]}, {"pause": 1300}, {"rec": [["bmp", 3]]}],
     }
@@ -51,6 +56,11 @@ def scenarios(tier, rng):
                 t["steps"] = st
             seeded.append(t)
     return seeded
+
+
+def sent_so_far(r):
+    evs = [json.loads(x) for x in r["run_events"]]
+    return [i for e in evs[:r["event_index_in_run"] + 1] if e["ev"] == "srv_record" for p in e["pdus"] if p[0] in ("bmp", "part2", "bmp3") for i in ([p[1], p[1] + 1, p[1] + 2] if p[0] == "bmp3" else [p[1]])]
 
 
 def selftest20(wd, lines):
@@ -124,20 +134,20 @@ def run(tier, seed):
                 key = "gui:nojoin:%s" % ev.get("mode")
                 what = "the receive thread did not finish within the deadline after the session ended by '%s' (packing %s)" % (ev.get("mode"), s.get("pack"))
             elif ev.get("ev") == "quiet":
-                key = "gui:stall:%s" % s.get("pack")
+                key = ("gui:order:%s" if sorted(ev.get("fwd", [])) == sorted(sent_so_far(r)) and ev.get("fwd") != sent_so_far(r) else "gui:stall:%s") % s.get("pack")
                 evs = [json.loads(x) for x in r["run_events"]]
-                sent = [p[1] for e in evs[:r["event_index_in_run"] + 1] if e["ev"] == "srv_record" for p in e["pdus"] if p[0] in ("bmp", "part2")]
+                sent = [i for e in evs[:r["event_index_in_run"] + 1] if e["ev"] == "srv_record" for p in e["pdus"] if p[0] in ("bmp", "part2", "bmp3") for i in ([p[1], p[1] + 1, p[1] + 2] if p[0] == "bmp3" else [p[1]])]
                 what = "with the server silent only bitmaps %s of %s sent were forwarded (packing %s): a PDU already received waits for further server traffic" % (ev.get("fwd"), sent, s.get("pack"))
             else:
                 key = "gui:%s:%s" % (ev.get("ev"), r["what"] or "noaction")
                 what = "event %s is no behaviour of the required design" % r["event"][:200]
             v.violation(key, "scenario %s: %s" % (run_id, what), {"scenario": s, "events": r["run_events"], "tlc": r["tlc_tail"]})
         lines = [l for l in txt.split("\n") if l.strip()]
-        tested = selftest20(wd, lines)
+        tested = selftest20(wd, lines) if not v.violations else []
         cov = {"states": mc.distinct, "transitions": mc.generated, "traces_validated_against_impl": accepted,
                "samples": [{"scenario": scs[7], "events": [json.loads(x) for x in lines[:6]]}],
                "evaluations": len(scs), "distinct_nontrivial": len({json.dumps(s["steps"], sort_keys=True) for s in scs}),
-               "rule": "packings {one PDU per TLS record, two / three per record, one PDU split over two records, mixed, none, one per record with 0.7 s / 1.3 s of server silence in between} x end modes {ultimatum, close_notify, abrupt close, undecodable PDU of the library's error kind, of an io kind} x {with, without concurrent input writes}"
+               "rule": "packings {one PDU per TLS record, two / three per record, one PDU split over two records, mixed, none, one PDU with three rectangles, a burst with the end right behind it, one per record with 0.7 s / 1.3 s of server silence in between} x end modes {ultimatum, close_notify, abrupt close, undecodable PDU of the library's error kind, of an io kind} x {with, without concurrent input writes}"
                        + ("" if tier == "quick" else " x 10 repetitions with seeded random pauses") + "; distinct = distinct scenarios",
                "as_implemented_model_experiments": exps, "binding_selftest_rejected": tested, "events_validated": len(lines), "checker_cmd": mc.cmd}
         return v.finish("model_checking", cov, [
